@@ -15,6 +15,7 @@ from dw.monitors import V
 PROP = "C05"
 
 
+LOCK_STATS = {"acquires": 0, "edges": 0}
 GLYPH_WIRE = {"p": 1, "\u00e9": 6, "\u6f22": 6, "\U0001F600": 12}  # bytes per character in the request body (JSON escapes non-ASCII)
 
 
@@ -23,7 +24,9 @@ def _mk_update(uid: str, size: int, glyph: str = "p"):
     from aws_durable_execution_sdk_python.identifier import OperationIdentifier
     from aws_durable_execution_sdk_python.lambda_service import OperationUpdate
 
-    return OperationUpdate.create_step_succeed(OperationIdentifier(uid, None, uid), payload=glyph * max(1, size // GLYPH_WIRE[glyph]))
+    # every other update belongs to a context (has a parent id), as the operations of branches and child contexts do
+    parent = "ctx-%s" % uid[-1] if (sum(map(ord, uid)) % 2) else None
+    return OperationUpdate.create_step_succeed(OperationIdentifier(uid, parent, uid), payload=glyph * max(1, size // GLYPH_WIRE[glyph]))
 
 
 class RecClient:
@@ -66,7 +69,11 @@ class RecClient:
             self.last_call_t = time.monotonic()
         # some responses are paginated: the rest of the updated state has to be fetched with GetDurableExecutionState
         marker = "m%d" % n if (self.paged and n % self.paged == 0) else None
-        return CheckpointOutput(checkpoint_token=tok, new_execution_state=CheckpointUpdatedExecutionState(next_marker=marker))
+        # the answer reports the operations the call changed (with their parent links), which the SDK merges into its view of the history
+        from aws_durable_execution_sdk_python.lambda_service import Operation
+
+        ops = [Operation.from_dict({"Id": u.operation_id, "ParentId": u.parent_id, "Type": "STEP", "Status": "SUCCEEDED", "Name": u.name}) for u in updates]
+        return CheckpointOutput(checkpoint_token=tok, new_execution_state=CheckpointUpdatedExecutionState(operations=ops, next_marker=marker))
 
     def get_execution_state(self, *a, **k):
         from aws_durable_execution_sdk_python.lambda_service import StateOutput
@@ -90,6 +97,12 @@ def trial(case):  # noqa: C901, PLR0912, PLR0915
     client = RecClient(case["latency"], case.get("fail_at"))
     client.paged = case.get("paged", 0)
     client.fail_page_at = case.get("fail_page_at")
+    # lock-order sanitizer over the SDK's own locks (dw/lockorder.py): producers and the checkpoint thread taking two of the state's
+    # locks in opposite orders is a feasible deadlock - every synchronous caller would block for ever - whether or not it struck here
+    from dw import lockorder
+
+    lockorder.install()
+    lockorder.reset()
     st = ExecutionState("arn:c05", "T0", {}, client, batcher_config=cfg)
     handover: list[str] = []
     held, achieved, consumer_ref = [False], [False], [None]
@@ -250,6 +263,13 @@ def trial(case):  # noqa: C901, PLR0912, PLR0915
                 size, sync, _ = plans[pi][j]
                 if oc == "ok" and sync and size is not None and uid not in dset:
                     viol.append(V(PROP, "C05/sync-success-without-delivery", "%s returned success but was never delivered" % uid))
+    lo = lockorder.report()
+    for inv_ in lo["inversions"]:
+        viol.append(V(PROP, "C05/lock-order-inversion/%s-vs-%s" % tuple(sorted([str(inv_["a"]).split(":")[0], str(inv_["b"]).split(":")[0]])),
+                      "locks created at %s and %s are taken in opposite orders by threads %s (at %s and %s): a feasible deadlock of the checkpoint pipeline"
+                      % (inv_["a"], inv_["b"], inv_["threads"], inv_["ab_at"], inv_["ba_at"])))
+    LOCK_STATS["acquires"] = LOCK_STATS.get("acquires", 0) + lo["acquires"]
+    LOCK_STATS["edges"] = max(LOCK_STATS["edges"], lo["edges"])
     if case.get("hold_put") and not achieved[0]:
         verdict = "inconclusive"
     return viol, verdict, {"targeted": 1 if (case.get("hold_put") and achieved[0]) else 0, "calls": len(client.calls), "delivered": len(delivered), "handover": len(hand), "attached": attached,
@@ -340,7 +360,8 @@ def run_case(case):
                     "trials_with_paginated_responses": 1 if case.get("paged") else 0,
                     "page_fetch_failure_injected": 1 if case.get("fail_page_at") is not None else 0,
                     "targeted_lost_wakeup_order_achieved": st["targeted"],
-                    "trials_with_non_ascii_payloads": 0 if (case.get("glyphs") or ["p"]) == ["p"] else 1},
+                    "trials_with_non_ascii_payloads": 0 if (case.get("glyphs") or ["p"]) == ["p"] else 1,
+                    "sdk_lock_acquisitions_observed_by_the_lock_order_sanitizer": LOCK_STATS.pop("acquires", 0) or 0},
             "sample": {"label": "batcher", "producers": len(case["plans"]), "max_ops": case["max_ops"], "max_bytes": case["max_bytes"],
                        "window": case["window"], "plan0": case["plans"][0][:5], "calls": st["calls"], "delivered": st["delivered"]}}
 
